@@ -22,6 +22,8 @@ pub struct Scn {
     /// every request the node sent: (tick, peer, tid, request)
     pub sent: Vec<(usize, usize, u32, dht::RequestSpecific)>,
     pub ticks: usize,
+    /// how many of the peers honest replies list (None = all): peers added later for other purposes stay unlisted
+    pub listed: Option<usize>,
 }
 
 pub fn peer_id(i: usize, r: &mut Rng) -> [u8; 20] {
@@ -44,13 +46,13 @@ impl Scn {
         tape_seed(r.next());
         let peers: Vec<Peer> = (0..n).map(|i| Peer::new(peer_id(i, r))).collect();
         let node = Manual::new(&[peers[0].addr], server_mode, settings);
-        let mut s = Scn { node, peers, now: 1000, sent: Vec::new(), ticks: 0 };
+        let mut s = Scn { node, peers, now: 1000, sent: Vec::new(), ticks: 0, listed: None };
         s.settle();
         s
     }
 
     pub fn all_nodes(&self) -> Vec<Node> {
-        self.peers.iter().map(|p| p.node()).collect()
+        self.peers.iter().take(self.listed.unwrap_or(usize::MAX)).map(|p| p.node()).collect()
     }
 
     pub fn advance(&mut self, ms: u64) {
